@@ -69,7 +69,7 @@ def collStream (cfg : Cfg M K R) (eqv : Eqv M) (o : SubOpts K) (s : CState M R) 
 /-- `ValueChange` as delivered -/
 structure VDeliv (M : Type) where
   value : M
-  time : Nat
+  time : Int
   seed : Bool
   lastSeed : Bool
 
